@@ -596,6 +596,8 @@ def c15(ctx, res):
     kinds = set()
     for p in paths:
         pr = te.eval_path(b, p)
+        if getattr(pr, "infeasible", False):
+            continue        # (a test on a value the path itself has just constructed: `while let Some(..) = <inlined helper>`)
         conds = [(show(d), ch) for (d, ch, _bb) in pr.conds]
         if not conds:
             probs.append("a path has no loop test at all")
@@ -831,7 +833,8 @@ def _byref_sinks(ctx):
             continue
         prims = [norm(c.resolved or c.nominal) for c in ctx.eff.direct[b.path]["own_prim"]]
         if sum(1 for n in prims if n in ("std::ptr::drop_in_place", "std::mem::MaybeUninit::assume_init_drop",
-                                         "std::mem::MaybeUninit::assume_init_read", "std::ptr::read")) >= 2:
+                                         "std::mem::MaybeUninit::assume_init_read", "std::ptr::read")
+               or _norm_copy_out(n + "(").startswith("READ(")) >= 2:
             out.add(b.path)
     ctx._byref_sinks_ = out
     return out
@@ -1090,6 +1093,7 @@ def c06(ctx, res):
         if b.kind == "assoc_fn" and ins and r.is_entry_ty(ins[0]) and b.impl_self and b.impl_self.get("name") == r.entry:
             sinks.append(b)
     byref = [ctx.facts.body(p_) for p_ in sorted(_byref_sinks(ctx))]
+    byref_paths = set(_byref_sinks(ctx))
     res.floor("C06.2 sink bodies (take Entry by value)", len(sinks) + len(byref), 3)
     for b in sinks + byref:
         res.count("C06.2 sinks")
@@ -1106,6 +1110,13 @@ def c06(ctx, res):
                     if nn == "std::ptr::drop_in_place" and ("p1.%s" % slot) in a0:
                         n += 1
                     if nn in ("std::mem::MaybeUninit::assume_init_drop", "std::mem::MaybeUninit::assume_init_read") and ("p1.%s" % slot) in a0:
+                        n += 1
+                    # the slot read out bitwise through its address (`slot.as_ptr().read()`)
+                    if _norm_copy_out(nn + "(").startswith("READ(") and a0.startswith("std::mem::MaybeUninit::") and \
+                            ("assume_init_ref(" in a0 or "assume_init_mut(" in a0) and ("p1.%s)" % slot) in a0:
+                        n += 1
+                    # the whole entry handed to a `&mut self` sink of the entry type (judged as a sink of its own): both slots end there
+                    if c is not None and c.target is not None and c.target.path in byref_paths and a0 in ("&p1", "&*p1") and b.path not in byref_paths:
                         n += 1
                 if n != 1:
                     probs.append("slot `%s` is consumed %d times on a path" % (slot, n))
@@ -1235,18 +1246,21 @@ def c06(ctx, res):
 # =====================================================================================================================
 #  C04: faithful key -> value map
 # =====================================================================================================================
+def _hash_like(ctx, ty):
+    """u64, or a private single-field newtype around it"""
+    if ty.get("s") == "u64":
+        return True
+    if ty.get("k") == "adt" and ty.get("local"):
+        a = ctx.facts.adts.get(ty["name"])
+        if a and a.get("kind") == "struct":
+            fs = a["variants"][0]["fields"]
+            return len(fs) == 1 and fs[0]["ty"].get("s") == "u64"      # a private newtype around the hash value
+    return False
+
+
 def hash_functions(ctx):
     """crate-local fns that compute a key hash: contain a hash site directly and return u64"""
-    def hash_like(ty):
-        if ty.get("s") == "u64":
-            return True
-        if ty.get("k") == "adt" and ty.get("local"):
-            a = ctx.facts.adts.get(ty["name"])
-            if a and a.get("kind") == "struct":
-                fs = a["variants"][0]["fields"]
-                return len(fs) == 1 and fs[0]["ty"].get("s") == "u64"      # a private newtype around the hash value
-        return False
-    return [b for b in ctx.facts.bodies if ctx.eff.direct[b.path]["hash"] and hash_like(b.j.get("output", {}))]
+    return [b for b in ctx.facts.bodies if ctx.eff.direct[b.path]["hash"] and _hash_like(ctx, b.j.get("output", {}))]
 
 
 def _te_c04(ctx):
@@ -1286,7 +1300,10 @@ def c04(ctx, res, only_hash_agreement=False):
                 why.append("does not build the hasher from its first argument")
             if not (len(hh) == 1 and hh[0][1][0] in ("p2", "&*p2")):
                 why.append("does not hash its second argument exactly once")
-            if not (len(fin) == 1 and show(rs[0].ret).startswith("<") and "finish" in show(rs[0].ret)):
+            ret_ = rs[0].ret
+            if ret_[0] == "agg" and ret_[1] == "adt" and len(ret_[4]) == 1:
+                ret_ = ret_[4][0][1]          # (the hash wrapped in a single-field newtype)
+            if not (len(fin) == 1 and show(ret_).startswith("<") and "finish" in show(ret_)):
                 why.append("does not return Hasher::finish of that state")
         else:
             why.append("%d paths" % len(rs))
@@ -1304,7 +1321,10 @@ def c04(ctx, res, only_hash_agreement=False):
             continue
         tec = _te_c04(ctx)
         try:
-            paths = tec.paths(b, max_paths=60)
+            try:
+                paths = tec.paths(b, max_paths=400, max_visits=2)       # (one unrolled iteration: a site may sit in a loop body)
+            except TooComplex:
+                paths = tec.paths(b, max_paths=60)
         except TooComplex:
             res.violate("C04.1:%s:too-complex" % b.path, "too many paths", span_str(b.span), {}, "C04.1")
             continue
@@ -1328,7 +1348,7 @@ def c04(ctx, res, only_hash_agreement=False):
                     if tab in ("&*p%d.%s" % (i, r.TABLE), "&p%d.%s" % (i, r.TABLE), "&**p%d.0.%s" % (i, r.TABLE)):
                         owner = "p%d" % i
                 local_table = owner is None
-                h = argt[1]
+                h = _unwrap_hash(argt[1], hnames)
                 if cls in ("find", "remove") and h[0] == "param" and "#inl" not in b.path:
                     # the hash is handed in by the caller (a private helper): the site is judged inside every caller, with this
                     # helper inlined there
@@ -1372,7 +1392,7 @@ def c04(ctx, res, only_hash_agreement=False):
                     if h[0] == "param":
                         pass      # hash supplied by the caller: judged at the caller (below)
                     else:
-                        key_h = _hash_key(h, hnames, owner if not local_table else None, r, probs, allow_closure=True)
+                        key_h = _hash_key(h, hnames, owner if not local_table else None, r, probs, allow_closure=True, ctx=ctx)
                         if key_h is not None and not _key_of(key_h, ent):
                             probs.append("inserted with the hash of `%s`, which is not the inserted entry's key (`%s`)" % (show(key_h)[:120], show(ent)[:80]))
                 bp = b.path.split("#inl")[0]
@@ -1388,7 +1408,7 @@ def c04(ctx, res, only_hash_agreement=False):
             if c.target is None:
                 continue
             tins = c.target.j.get("inputs") or []
-            hpos = [i for i, t in enumerate(tins) if t.get("s") == "u64"]
+            hpos = [i for i, t in enumerate(tins) if _hash_like(ctx, t)]
             epos = [i for i, t in enumerate(tins) if t.get("k") == "adt" and t.get("local") and t["name"] in (r.entry, _unhinged(ctx))]
             if not hpos or not epos or not any(cls in ("insert", "insert_grow") for (_p, (cls, _c)) in eff.trans(c.target)["table"]):
                 continue
@@ -1406,16 +1426,17 @@ def c04(ctx, res, only_hash_agreement=False):
                     if cc is not c:
                         continue
                     reached = True
-                    h, e = argt[hpos[0]], argt[epos[0]]
+                    h, e = _unwrap_hash(argt[hpos[0]], hnames), argt[epos[0]]
                     if h[0] == "param":
                         continue
-                    kh = _hash_key(h, hnames, None, r, probs, allow_closure=True)
+                    hinfo = {}
+                    kh = _hash_key(h, hnames, None, r, probs, allow_closure=True, ctx=ctx, info=hinfo)
                     if kh is not None and not _key_of(kh, e):
                         probs.append("passes the hash of `%s` with the entry `%s`" % (show(kh)[:100], show(e)[:100]))
                     # the hash must come from the hash builder of the very cache whose table receives the entry (a clone's builder
-                    # need not hash like the original's)
-                    if h[0] == "call" and tins and r.is_cache_ty(tins[0].get("ty", tins[0])) and h[2]:
-                        hb = strip_refs(h[2][0])
+                    # need not hash like the original's) -- also when it is computed by a hasher closure built over that builder
+                    if h[0] == "call" and tins and r.is_cache_ty(tins[0].get("ty", tins[0])) and h[2] and hinfo.get("hb") is not None:
+                        hb = strip_refs(hinfo["hb"])
                         recv = strip_refs(argt[0])
                         if hb[0] == "field" and hb[2] == r.HB and show(strip_refs(hb[1])) != show(recv):
                             probs.append("passes to a method of the cache `%s` a hash built with the hash builder of `%s`"
@@ -1506,12 +1527,41 @@ def _is_eq_factory(ctx, fb):
     return ("PartialEq>::eq(" in s_ or "PartialEq::eq(" in s_) and "Borrow" in s_ and (".%s)" % r.E_KEY) in s_ and "p1.0" in s_.replace("*", "").replace("&", "")
 
 
-def _hash_key(h, hnames, owner, r, probs, allow_closure=False):
-    """for a hash term `hashfn(hb, key)` return the key term; record problems"""
+def _unwrap_hash(h, hnames):
+    """a hash carried in a transparent newtype: `keyhash(..).0` / `p.0` (field 0 of what a key-hash function returned, or of a
+    parameter) is that hash"""
+    while h[0] == "field" and str(h[2]) == "0" and (h[1][0] == "param" or (h[1][0] == "call" and h[1][1].split("::<")[0] in hnames)):
+        h = h[1]
+    return h
+
+
+def _strip_generic_args(name):
+    """`a::<T, U<V>>::b` -> `a::b`"""
+    out, depth, i = [], 0, 0
+    while i < len(name):
+        if depth == 0 and name.startswith("::<", i):
+            depth, i = 1, i + 3
+            continue
+        ch = name[i]
+        if depth:
+            if ch == "<":
+                depth += 1
+            elif ch == ">" and name[i - 1] != "-":
+                depth -= 1
+        else:
+            out.append(ch)
+        i += 1
+    return "".join(out)
+
+
+def _hash_key(h, hnames, owner, r, probs, allow_closure=False, ctx=None, info=None):
+    """for a hash term `hashfn(hb, key)` return the key term; record problems; info["hb"] receives the hash builder term"""
     if h[0] == "call":
         base = h[1].split("::<")[0]
         if base in hnames or any(base == hn for hn in hnames):
             hb = show(h[2][0])
+            if info is not None:
+                info["hb"] = h[2][0]
             if owner is not None and hb not in ("&*%s.%s" % (owner, r.HB), "&%s.%s" % (owner, r.HB)):
                 probs.append("hash built with `%s`, not with the cache's own hash builder" % hb)
             elif owner is None and ("." + r.HB) not in hb:
@@ -1520,6 +1570,34 @@ def _hash_key(h, hnames, owner, r, probs, allow_closure=False):
         if allow_closure and "as std::ops::Fn" in h[1]:
             # hasher closure applied to the entry: key of its argument
             return ("keyof", h[2][1])
+        if allow_closure and ctx is not None and "{closure" in h[1] and len(h[2]) == 2:
+            # the call is resolved to the closure body: it must return keyhash(captured hash builder, key of its argument), and the
+            # captured hash builder must be a cache's
+            cb = ctx.facts.body(_strip_generic_args(h[1]))
+            if cb is not None and cb.is_closure:
+                tec = _te_c04(ctx)
+                try:
+                    rs = tec.all_results(cb, max_paths=3)
+                except TooComplex:
+                    rs = []
+                cret = _unwrap_hash(rs[0].ret, hnames) if len(rs) == 1 else None
+                if len(rs) == 1 and cret[0] == "call" and cret[1].split("::<")[0] in hnames and len(cret[2]) == 2 \
+                        and not rs[0].stores:
+                    hb_in, key_in = cret[2]
+                    env = strip_refs(h[2][0])
+                    caps = [show(a) for a in env[2]] if env[0] == "closure" else []
+                    hbs = strip_refs(hb_in)
+                    cap_i = int(hbs[2]) if hbs[0] == "field" and strip_refs(hbs[1]) == ("param", 1) and str(hbs[2]).isdigit() else None
+                    if cap_i is None or cap_i >= len(caps) or ("." + r.HB) not in caps[cap_i]:
+                        probs.append("hasher closure `%s` is built over `%s`, not over a cache's hash builder" % (h[1][:60], ", ".join(caps)[:80]))
+                    elif owner is not None and caps[cap_i] not in ("&*%s.%s" % (owner, r.HB), "&%s.%s" % (owner, r.HB)):
+                        probs.append("hasher closure built with `%s`, not with the cache's own hash builder" % caps[cap_i])
+                    if info is not None and cap_i is not None and cap_i < len(caps):
+                        info["hb"] = env[2][cap_i]
+                    if _key_of(key_in, ("param", 2)):
+                        return ("keyof", h[2][1])
+                    probs.append("hasher closure `%s` hashes `%s`, not the key of its argument" % (h[1][:60], show(key_in)[:80]))
+                    return None
     probs.append("the hash operand `%s` is not produced by the key-hash function" % show(h)[:120])
     return None
 
@@ -1536,6 +1614,19 @@ def _same_key(a, b):
     return False
 
 
+def _copy_source(e):
+    """if the entry term is a bitwise copy `read(p)` (possibly with fields other than the key replaced afterwards): p, else None"""
+    e2 = strip_refs(e)
+    while e2[0] == "agg" and e2[1] == "upd" and not any(str(n_).lower().endswith("key") for (n_, _v) in e2[4] if n_ != ".."):
+        base_ = [v_ for (n_, v_) in e2[4] if n_ == ".."]
+        if len(base_) != 1:
+            return None
+        e2 = strip_refs(base_[0])
+    if e2[0] == "call" and len(e2[2]) == 1 and (_norm_copy_out(show(e2)).startswith("READ(") or norm(e2[1]) in ("std::ptr::read", "core::ptr::read")):
+        return strip_refs(e2[2][0])
+    return None
+
+
 def _key_of(key_term, entry_term):
     """is key_term the key of entry_term (…::key(&E) / keyof(E) with E the same value)?"""
     e = strip_refs(entry_term)
@@ -1543,13 +1634,19 @@ def _key_of(key_term, entry_term):
         k = key_term[1]
         while k[0] == "agg" and k[1] == "tuple":
             k = k[4][0][1]
-        return strip_refs(k) == e or show(e) in show(k)
+        if strip_refs(k) == e or show(e) in show(k):
+            return True
+        # the entry is a bitwise copy of the hashed one (`read(p)`, possibly with other fields than the key replaced afterwards)
+        src = _copy_source(e)
+        return src is not None and src == strip_refs(k)
     # accessor inlined: assume_init_ref(&E.key) / &E.key
     kt = strip_refs(key_term)
     while kt[0] == "call" and ("assume_init_ref" in kt[1] or "assume_init_mut" in kt[1]) and len(kt[2]) == 1:
         kt = strip_refs(kt[2][0])
     if kt[0] == "field" and str(kt[2]).lower().endswith("key") and (strip_refs(kt[1]) == e or show(strip_refs(kt[1])) == show(e)):
         return True
+    if kt[0] == "field" and str(kt[2]).lower().endswith("key") and _copy_source(e) is not None and strip_refs(kt[1]) == _copy_source(e):
+        return True     # (the key slot of the entry the inserted one is a bitwise copy of)
     # the entry is an aggregate built in this body: the hashed value is the value its key field was built from
     if e[0] == "agg" and e[1] == "adt":
         for (fname, fval) in e[4]:
@@ -1640,6 +1737,36 @@ def _neighbours_from_params(ctx, te0, b, c, X):
     return False
 
 
+def _closure_env_args(ctx, te, cb):
+    """Terms for the parameters of the closure body `cb` in which its environment (the captured places) is expressed through the
+    parameters of the one body that creates it; None if there is no unique creator or the captures differ between its paths."""
+    from ..terms import subterms
+    origin = cb.path.split("#inl")[0]
+    parents = [b for b in ctx.facts.bodies if "#inl" not in b.path and any(x.path == origin for x in ctx.cg.creates.get(b.path, []))]
+    if len(parents) != 1 or parents[0].is_closure:
+        return None
+    par = parents[0]
+    found = {}
+    try:
+        for p in te.paths(par, max_paths=40):
+            pr = te.eval_path(par, p)
+            cands = [pr.ret] + [a for (_bb, _f, argt, _v, _c) in pr.calls for a in argt] + [v for (_p, v, _b) in pr.stores]
+            for t0 in cands:
+                if not isinstance(t0, tuple):
+                    continue
+                for t in subterms(t0):
+                    if isinstance(t, tuple) and t and t[0] == "closure" and t[1] == origin:
+                        found[tuple(show(a) for a in t[2])] = t
+    except TooComplex:
+        return None
+    if len(found) != 1:
+        return None
+    clo = list(found.values())[0]
+    ty1 = cb.j["locals"][1]["ty"] if len(cb.j["locals"]) > 1 else {}
+    env = ("ref", clo) if ty1.get("k") == "ref" else clo
+    return [env] + [("param", i) for i in range(2, cb.arg_count + 1)]
+
+
 def c05(ctx, res, only_list_shape=False):
     r, cg, eff = ctx.roles, ctx.cg, ctx.eff
     te = _te(ctx, True)
@@ -1725,8 +1852,8 @@ def c05(ctx, res, only_list_shape=False):
                     callers_ = [cc for cc in cg.callers_of(origin) if cc.body is not None]
                     derived_ = []
                     for cc in callers_:
-                        if cc.body.is_closure or cc.target is None or cc.target.path != origin:
-                            derived_ = None      # reached through a closure / trait dispatch: cannot be inlined
+                        if cc.target is None or cc.target.path != origin:
+                            derived_ = None      # reached through trait dispatch: cannot be inlined
                             break
                         X2_, inl_ = derive(ctx, cc.body, lambda tg, _s=new_set: tg.path in _s, depth=len(new_set) + 1)
                         if not inl_:
@@ -1740,8 +1867,10 @@ def c05(ctx, res, only_list_shape=False):
             n_call += 1
             res.count("C05.3 promotion sites")
             probs = []
+            # a closure sees the cache through its captures: express them through the parameters of the body that creates it
+            cl_args = _closure_env_args(ctx, te0, b) if b.is_closure else None
             for p in te0.paths(b, max_paths=20):
-                pr = te0.eval_path(b, p)
+                pr = te0.eval_path(b, p, args=cl_args)
                 for (bb, full, argt, val, cc) in pr.calls:
                     if cc is not c:
                         continue
